@@ -388,3 +388,26 @@ async def waiter_takes_exactly_the_head_it_accepts_and_clears_the_mark():
         ensures("gave-up-without-consuming-anything", both(len(Mon.handled) == 0, list(q._queue) == Mon.before))
     ensures("queue-invariant-holds-when-the-waiter-returns", queue_inv(q))
     cover("reply-was-marked-by-the-unhandled-consumer", both(got, Mon.was_marked))
+
+
+# ---------------------------------------------------------------- one receive queue per connection
+@harness(prop="C07", target="geckolib.driver.async_udp_protocol:GeckoAsyncUdpProtocol.__init__", name="every_connection_has_its_own_receive_queue")
+def every_connection_has_its_own_receive_queue(data: bytes, port: int):
+    """'received on a connection': the locator's endpoint, a spa connection and its successor after a reconnect never share a
+    queue or a mark -- a datagram queued on one is invisible to the consumers of the others"""
+    a = GeckoAsyncUdpProtocol(no_connection_lost, ("10.0.0.9", 10022))
+    b = GeckoAsyncUdpProtocol(no_connection_lost, ("10.0.0.9", 10022))
+    ensures("distinct-queue-objects", a.queue is not b.queue)
+    a.datagram_received(data, ("10.0.0.9", port))
+    a.queue.mark()
+    ensures("other-connection-sees-nothing", both(b.queue.qsize() == 0, b.queue.head is None, not b.queue.is_marked))
+    c = GeckoAsyncUdpProtocol(no_connection_lost, ("10.0.0.9", 10022))
+    ensures("a-later-connection-starts-empty", both(c.queue.qsize() == 0, not c.queue.is_marked, c.queue is not a.queue))
+
+
+# a framed packet is accepted by the packet consumer ONLY, whatever its payload spells (shared with C04)
+from contracts import c04_wire
+harness(prop="C07", target="geckolib.driver.protocol.packet:GeckoPacketProtocolHandler.send_bytes",
+        name="framed_packet_is_claimed_by_the_packet_consumer_only")(c04_wire.packet_framing_layout)
+harness(prop="C07", target="geckolib.driver.protocol.packet:GeckoPacketProtocolHandler.can_handle",
+        name="frame_carrying_any_verb_goes_to_the_packet_consumer_only")(c04_wire.frame_carrying_any_verb_is_claimed_by_the_packet_handler_only)
